@@ -1,12 +1,14 @@
 (** Proofs about the snacl model (Crypto/Snacl.v).
 
-    1. list / tampering helpers;
-    2. the little-endian codec and the 88-byte parameter layout (no
-       cryptographic premise);
-    3. Encrypt / Decrypt under the ideal laws of the AEAD (Section
-       hypotheses; each closed theorem carries exactly the laws it uses);
-    4. passphrase binding under the ideal laws of kdf and hash;
-    5. the toy instance satisfies every law (non-vacuity). *)
+    1.  list / tampering helpers;
+    2.  the little-endian codec and the 88-byte parameter layout (no
+        cryptographic premise);
+    3.  Encrypt / Decrypt under the ideal laws of the AEAD (Section
+        hypotheses; each closed theorem carries exactly the laws it uses);
+    3b. the HMAC key block through which a passphrase enters scrypt;
+    4.  passphrase binding under the ideal laws of kdf and hash, the stored
+        parameters after a restart and under tampering; waddrmgr's wrappers;
+    5.  the toy instance satisfies every law (non-vacuity). *)
 From Verif Require Import Base.Prelude Crypto.Snacl.
 Local Open Scope N_scope.
 
